@@ -149,9 +149,12 @@ def console(ctx, cfg, fs):
     # chunk loop: Raw arm
     csw = [s for s in switches(b) if s.kind == 'enum' and s.enum and s.enum.endswith('splitter::Chunk')]
     nx = [c for c in b.calls() if c.is_(r'Splitter.*Iterator>::next$')]
-    if len(csw) != 1 or len(nx) != 1:
+    # the match over the chunk is the test that dominates any further look at the same chunk (`matches!(chunk, Chunk::Paragraph)` inside a merged arm)
+    main = [s_ for s_ in csw if all(b.dominates(s_.b, o_.b) for o_ in csw)]
+    if len(main) != 1 or len(nx) != 1:
         raise Broken('render_console: chunk loop not found (%d switches, %d next calls)' % (len(csw), len(nx)))
-    csw = csw[0]; header = nx[0].bb
+    csw2 = [s_ for s_ in csw if s_ is not main[0]]
+    csw = main[0]; header = nx[0].bb
     raw = csw.target('Raw')
     # the single-space skip: an edge inside W whose condition compares the chunk text with " "
     skip_edges = []
@@ -216,12 +219,21 @@ def console(ctx, cfg, fs):
     fsw = [sw for sw in switches(b) if sw.kind == 'bool' and any(r.kind == 'param' and r.what == 'full' for r in sw.roots) or
            (sw.kind == 'bool' and any(r.kind == 'un' and any(q.kind == 'param' and q.what == 'full' for q in provenance(b, r.extra['a'], r.site[0], r.site[1], through=None)) for r in sw.roots))]
     par = csw.target('Paragraph')
-    ok = len(fsw) == 1 and only_via_edge(b, csw.b, par, fsw[0].b)
+    # edges a chunk of another kind cannot take / a Paragraph chunk cannot take, at the secondary tests of the same chunk
+    dec = variant_edges(b, csw.enum, 'Paragraph', lambda s_: s_.b != csw.b) if csw2 else []
+    par_only = list(dec)
+    not_par = [(a_, t2) for (a_, t_) in dec for t2 in set(Switch(b, a_).edges.values()) if t2 != t_]
+    others = {t_ for o_, t_ in csw.edges.items() if o_ != 'Paragraph'}
+    # reached by a chunk that is not a paragraph break, before the next chunk is fetched
+    foreign = set()
+    for t_ in others:
+        foreign |= reachable_edges(b, t_, removed_edges=par_only, avoid=[header])
+    ok = len(fsw) == 1 and (only_via_edge(b, csw.b, par, fsw[0].b) if not csw2 else fsw[0].b not in foreign and fsw[0].b in reachable_edges(b, par, removed_edges=not_par, avoid=[header]))
     ctx.ob('F.full', 'render_console:full-only-after-paragraph', ok, '`full` is tested in exactly one place, inside the Paragraph arm (%d test(s)): %s' % (len(fsw), ok), where=b.where(), cfg=cfg)
     # ... and every paragraph break gets there: no way from the Paragraph arm to the next chunk (or out of the function) around the test
     nxt = [c.bb for c in b.calls() if c.is_(r'Splitter.*Iterator>?::next$') or c.is_(r'Iterator>?::next$')]
     if len(fsw) == 1:
-        around = reachable_edges(b, par, avoid=[fsw[0].b])
+        around = reachable_edges(b, par, removed_edges=not_par, avoid=[fsw[0].b])
         leak = sorted(x for x in around if x in nxt or b.term(x)['k'] == 'return')
         ctx.ob('F.full', 'render_console:every-paragraph-break-asks-full', par is not None and not leak and bool(nxt),
                'from the Paragraph arm every way to the next chunk passes the `full` test (a paragraph break that is not seen leaves the short form running into the second paragraph): %s' % ([b.where(x) for x in leak] or 'ok'), where=b.where(par if par is not None else 0), cfg=cfg)
